@@ -1495,6 +1495,10 @@ pub struct ExportPlan {
     pub filter_spelling: String,
     pub m: bool,
     pub ordering: Option<OrderingSpec>,
+    /// -c <spelling>: the run presents the retained-choices diagram; judged only by comparing the
+    /// exported file with the table the same invocation prints
+    #[serde(default)]
+    pub retain: Option<String>,
 }
 
 pub fn gen_export_plan(rng: &mut Prng) -> ExportPlan {
@@ -1512,8 +1516,9 @@ pub fn gen_export_plan(rng: &mut Prng) -> ExportPlan {
         channel: gen_channel(rng),
         filter,
         filter_spelling: rng.pick(FILTER_SPELLINGS[filter as usize]).to_string(),
-        m: rng.chance(1, 6),
+        m: rng.chance(1, 5),
         ordering: if rng.chance(1, 4) { Some(gen_ordering(rng, &names)) } else { None },
+        retain: if rng.chance(1, 5) { Some(rng.pick(&["t", "true", "T", "f", "false", "0", "1"]).to_string()) } else { None },
     }
 }
 
@@ -1544,9 +1549,14 @@ pub fn execute_export(p: &ExportPlan) -> RunOutcome {
         tree_path.to_string_lossy().to_string(),
         "-f".to_string(),
         p.filter_spelling.clone(),
+        "-t".to_string(),
     ];
     if p.m {
         args.push("-m".into());
+    }
+    if let Some(c) = &p.retain {
+        args.push("-c".into());
+        args.push(c.clone());
     }
     let ord = p.ordering.as_ref().map(|o| o.bytes());
     let sp = run_rsbdd(
@@ -1640,7 +1650,27 @@ pub fn execute_export(p: &ExportPlan) -> RunOutcome {
                             }
                         }
                     }
+                    // D7: the file denotes the diagram the run presents, i.e. the one whose table the
+                    // same invocation prints (whatever -m / -c did to it)
                     if ok {
+                        if let Ok(pt) = parse_stdout(&String::from_utf8_lossy(&sp.stdout), false, true, false) {
+                            if let Some((tu, fu)) = function_by_name(&pt, &names) {
+                                let shown = match p.filter {
+                                    2 => fu.not(),
+                                    _ => tu,
+                                };
+                                if shown != got {
+                                    vs.push(viol(
+                                        "C14",
+                                        "D7",
+                                        "file-vs-table",
+                                        format!("`{text}` {:?}: the -d file denotes a different function than the table printed by the same invocation", (p.m, &p.retain, &p.filter_spelling)),
+                                    ));
+                                }
+                            }
+                        }
+                    }
+                    if ok && p.retain.is_none() {
                         if !p.m {
                             if got != func {
                                 vs.push(viol("C14", "D7", "function", format!("-d file of `{text}` (filter {}) denotes a different function than the formula", p.filter_spelling)));
